@@ -20,6 +20,9 @@ def oracle(p):
                     if prev[k] != parts[k]:
                         bad.append({'rule': 'a received PRIORITY frame changed stream / flow-control / settings state', 'step': i,
                                     'detail': {'part': k, 'before': prev[k], 'after': parts[k]}})
+                if _conn.ok(parts) and (prev[3] != parts[3] or prev[7] != parts[7]):
+                    bad.append({'rule': 'a received PRIORITY frame changed the connection state or its limits', 'step': i,
+                                'detail': {'state_before': prev[3], 'state_after': parts[3], 'limits_before': prev[7], 'limits_after': parts[7]}})
                 if _conn.ok(parts):
                     want = [[14, e[0][1], e[0][2][1] + 1, e[0][2][0], 1 if e[0][2][2] else 0] for e in op[1]]
                     if parts[0][1] != want:
@@ -48,7 +51,20 @@ def oracle(p):
     return bad
 
 
-SPEC = dict(parts=PARTS, weights=WEIGHTS, rf_weights=RF, n_quick=250, n_thorough=6000, n_ops=28, oracle=oracle,
+def scenarios(run):
+    # PRIORITY frames before anything else (the connection is still IDLE), then an ordinary exchange
+    from harness import t2
+    RX = lambda *fs: ('Receive', [(f, None, {}) for f in fs])
+    out = []
+    for client in (True, False):
+        cfg = t2.default_cfg(client)
+        first = ('SendHeaders', 1, t2.REQ, 0, False, None, None, None) if client else RX(('Headers', 1, False, None, ('Decoded', t2.REQ)))
+        out.append((cfg, [('Initiate',), RX(('Priority', 3, (0, 15, False))), RX(('Priority', 1, (3, 255, True))), ('OpenInbound',), first,
+                          RX(('Priority', 1, (0, 0, False))), RX(('Priority', 1, (1, 3, False)))]))
+    return out
+
+
+SPEC = dict(parts=PARTS, weights=WEIGHTS, rf_weights=RF, n_quick=250, n_thorough=6000, n_ops=28, oracle=oracle, scenarios=scenarios,
             nontrivial=lambda p: any(op[0] == 'Prioritize' or (op[0] == 'Receive' and any(e[0][0] == 'Priority' for e in op[1])) for op in p['ops']),
             rule='priority-heavy programs: prioritize() and send_headers priority arguments with weights 0/1/16/256/257, self / other dependencies, '
                  'PRIORITY frames on idle, open, closed and never-used ids; compared with the model on result, output and every stream / flow-control probe; '
